@@ -238,6 +238,30 @@ impl Prop for C11 {
                 }
             }
         }
+        // (0b) a two-byte character across every likely buffer boundary: a fact phrase (plain words, then
+        // `°c`) whose `°` starts 3..0 bytes before and 1 byte after byte offsets 16 .. 8192, alone,
+        // as an operand and as the left side of a cast; and the same as one long unit word
+        for b in [16usize, 32, 64, 100, 128, 200, 255, 256, 512, 1000, 1024, 2048, 4096, 8192] {
+            for t in [b - 3, b - 2, b - 1, b, b + 1] {
+                let mut s = String::from("mass");
+                while s.len() + 4 + 2 <= t {
+                    s.push_str(" abc");
+                }
+                let r = t - s.len();
+                if r >= 2 {
+                    s.push(' ');
+                    s.push_str(&"a".repeat(r - 1));
+                } else if r == 1 {
+                    s.push('s');
+                }
+                debug_assert_eq!(s.len(), t);
+                s.push_str("°c");
+                sink(Case::new("straddle", s.clone()));
+                sink(Case::new("straddle", format!("1 + {s}")));
+                sink(Case::new("straddle", format!("{s} to m")));
+                sink(Case::new("straddle", format!("1 {}°c", "k".repeat(t.saturating_sub(2)))));
+            }
+        }
         // (a) token soups
         let nmax = tier.pick(3, 4);
         for n in 1..=nmax {
